@@ -55,6 +55,11 @@ def make_iter(E, it, node):
             cnt = z3.If(i.count < cnt, i.count, cnt)
         return Iter(count=z3.simplify(cnt), elem=lambda k: tuple(i.elem(k) for i in inners),
                     deps=tuple(d for i in inners for d in i.deps))
+    from . import grid as _grid
+    if isinstance(it, _grid.Lazy):
+        return Iter(count=it.count, elem=it.elem)
+    if _grid.is_grid(it):
+        return _grid.grid_iter(E, it)
     if isinstance(it, Arr):
         if it.ndim != 1:
             raise Unsupported('iteration over N-d array')
@@ -188,7 +193,7 @@ def exec_for(E, s):
     for j, inv in enumerate(invs):
         E.oblige('inv-init', E.spec_bool(inv, inv_env(0)), s, name='%s/loop%d/inv-init#%d' % (E.fn_short, ordinal, j + 1))
     names = assigned_names(s.body) | assigned_names([ast.Assign(targets=[s.target], value=ast.Constant(0))])
-    roots = stored_roots(s.body)
+    roots = stored_roots(s.body) | set(spec.get('mutates') or [])
     target_names = {n.id for n in ast.walk(s.target) if isinstance(n, ast.Name)}
 
     def havoc():
@@ -197,7 +202,14 @@ def exec_for(E, s):
                 env[name] = havoc_value(E, name, env[name])
         for name in sorted(roots):
             v = env.get(name)
-            if isinstance(v, Arr):
+            if isinstance(v, Arr) and getattr(v, 'lead', None) is not None:
+                # a list / array of element objects mutated in place, element by element
+                if v.ident in spec_iter.deps and not spec.get('elementwise'):
+                    raise Unsupported('loop mutates the array it iterates over')
+                from .engine import _opq
+                fn = z3.Function(fresh_name(name + '@loop'), *([z3.IntSort()] * v.lead), z3.DeclareSort('Val'))
+                E.st.heap[v.ident] = (lambda *idx, fn=fn: _opq(fn(*idx)))
+            elif isinstance(v, Arr):
                 if v.ident in spec_iter.deps:
                     raise Unsupported('loop mutates the array it iterates over')
                 E.st.heap[v.ident] = E.base_closure(name + '@loop', v.ty)
